@@ -513,6 +513,11 @@ func (fd *Client) BatchWriteItem(ctx context.Context, input *dynamodb.BatchWrite
 
 	if ferr := fd.forceFailureErr; ferr != nil {
 		// nothing is applied while a failure is emulated: every request is unprocessed, or the call fails
+		// (whatever the batch holds, also when it holds nothing)
+		if err := handleBatchWriteRequestError("", types.WriteRequest{}, map[string][]types.WriteRequest{}, ferr); err != nil {
+			return &dynamodb.BatchWriteItemOutput{}, err
+		}
+
 		unprocessed := map[string][]types.WriteRequest{}
 
 		for table, reqs := range input.RequestItems {
